@@ -200,8 +200,18 @@ func (FinalizerMonitor) OnWrite(x *Ctx, w *Write) {
 			if ts.StablePinned != "" {
 				res = append(res, "stable Service still pinned to "+ts.StablePinned)
 			}
+			// a BatchRelease owned by the Rollout is collected by the garbage collector once the Rollout is gone;
+			// it is residue only if nothing guarantees that (no owner reference)
 			for _, o := range x.W.Store.PeekAll("batchreleases") {
-				res = append(res, "BatchRelease "+accessor(o).GetName()+" still exists")
+				owned := false
+				for _, ref := range accessor(o).GetOwnerReferences() {
+					if ref.UID == accessor(w.Before).GetUID() {
+						owned = true
+					}
+				}
+				if !owned {
+					res = append(res, "BatchRelease "+accessor(o).GetName()+" still exists and is not owned by the Rollout")
+				}
 			}
 			if v := ViewWorkload(x.W, sc); v != nil && (v.Controlled || v.InProgress) {
 				res = append(res, "workload still marked as controlled / in progress")
